@@ -41,7 +41,9 @@ func features(x string) []string {
 	openOnLine := false   // a standalone `{` was seen on this line
 	closeOnLine := false  // a standalone `}` was seen on this line
 	lastTokWasOpen := false
+	anyToken := false
 	startTok := func() {
+		anyToken = true
 		if openOnLine {
 			set["token-after-open-brace-on-same-line"] = true
 		}
@@ -80,6 +82,11 @@ func features(x string) []string {
 				if r[i] == '`' {
 					set["backtick-in-comment"] = true
 				}
+				if r[i] == '\\' {
+					// the lexer keeps `escaped` set until the end of the comment line, whose
+					// newline then counts as a line continuation
+					set["backslash-in-comment"] = true
+				}
 				i++
 			}
 		case c == '"':
@@ -88,6 +95,13 @@ func features(x string) []string {
 			closed := false
 			for j < n {
 				if r[j] == '\\' {
+					if j+1 < n && r[j+1] == '`' {
+						set["backtick-in-dquote"] = true // the formatter toggles on escaped backticks too
+					}
+					if j+1 < n && r[j+1] == '\n' {
+						newline()
+						tokensOnLine = 1
+					}
 					j += 2
 					continue
 				}
@@ -140,7 +154,17 @@ func features(x string) []string {
 			}
 		case c == '<':
 			startTok()
-			if e, ok := wellFormedHeredoc(r, i); ok {
+			if e, empty, ok := wellFormedHeredoc(r, i); ok {
+				if empty {
+					// Token.NumLineBreaks counts 2 for a heredoc without body lines although it spans 1
+					set["empty-heredoc"] = true
+				}
+				for _, hc := range r[i:e] {
+					if hc == '`' {
+						// the formatter toggles withinBackquote on every backtick, also inside heredocs
+						set["backtick-in-heredoc"] = true
+					}
+				}
 				i = e
 				newline()
 				tokensOnLine = 1
@@ -154,6 +178,15 @@ func features(x string) []string {
 			w := r[w0:i]
 			if len(w) == 1 && w[0] == '\\' && i < n && r[i] == '\n' {
 				// a lone continuation backslash is not a token
+				if tokensOnLine == 0 {
+					set["line-continuation-without-token-before"] = true
+				}
+				if openOnLine {
+					set["token-after-open-brace-on-same-line"] = true
+				}
+				if closeOnLine {
+					set["token-after-close-brace-on-same-line"] = true
+				}
 				break
 			}
 			if len(w) == 1 && w[0] == '{' {
@@ -163,7 +196,13 @@ func features(x string) []string {
 				if closeOnLine {
 					set["token-after-close-brace-on-same-line"] = true
 				}
+				if tokensOnLine == 0 && anyToken {
+					// the formatter joins such a brace onto the previous line unless that line
+					// was a comment or a brace
+					set["open-brace-first-on-line"] = true
+				}
 				tokensOnLine++
+				anyToken = true
 				openOnLine = true
 				lastTokWasOpen = true
 				if i >= end {
@@ -179,6 +218,7 @@ func features(x string) []string {
 					set["close-brace-not-first-on-line"] = true
 				}
 				tokensOnLine++
+				anyToken = true
 				closeOnLine = true
 				lastTokWasOpen = false
 				break
@@ -205,16 +245,32 @@ func scanWord(r []rune, i int, set map[string]bool) int {
 	}
 	w := r[w0:i]
 	depth := 0
+	skip := false
 	for k, c := range w {
+		if skip { // the character after a backslash is literal for both machines
+			skip = false
+			continue
+		}
 		switch c {
 		case '\\':
 			// "\"+newline at the end of a word (or alone) is a line continuation
 			if !(k == len(w)-1 && i < n && r[i] == '\n') {
 				set["escape"] = true
+				skip = true
 			} else if i+1 < n && (r[i+1] == '"' || r[i+1] == '<' || r[i+1] == '`' || r[i+1] == '{' || r[i+1] == '}') {
 				// the formatter's `space` flag is false right after an escaped newline, so a
 				// quote / heredoc / brace starting the next line in column 0 is not recognised
 				set["special-right-after-line-continuation"] = true
+			} else {
+				// continuation followed by a blank line (or the end of input): the formatter
+				// may drop the blank line, leaving only the escaped newline
+				q := i + 1
+				for q < n && r[q] != '\n' && unicode.IsSpace(r[q]) {
+					q++
+				}
+				if q >= n || r[q] == '\n' {
+					set["blank-line-after-line-continuation"] = true
+				}
 			}
 		case '`':
 			set["backtick-in-word"] = true
@@ -257,10 +313,10 @@ func markerRune(c rune) bool {
 // wellFormedHeredoc: `<<MARKER\n` body `\n` padding MARKER (white space | EOF), where padding is
 // blanks only, every non-empty body line starts with the padding, and MARKER does not occur
 // earlier in the body. Returns the index after the closing marker.
-func wellFormedHeredoc(r []rune, i int) (int, bool) {
+func wellFormedHeredoc(r []rune, i int) (end int, empty bool, ok bool) {
 	n := len(r)
 	if i+1 >= n || r[i+1] != '<' {
-		return 0, false
+		return 0, false, false
 	}
 	j := i + 2
 	for j < n && markerRune(r[j]) {
@@ -268,7 +324,7 @@ func wellFormedHeredoc(r []rune, i int) (int, bool) {
 	}
 	marker := r[i+2 : j]
 	if len(marker) == 0 || j >= n || r[j] != '\n' {
-		return 0, false
+		return 0, false, false
 	}
 	body0 := j + 1
 	// first occurrence of marker in the body = where the lexer stops
@@ -279,11 +335,11 @@ func wellFormedHeredoc(r []rune, i int) (int, bool) {
 		}
 	}
 	if k+len(marker) > n {
-		return 0, false
+		return 0, false, false
 	}
 	e := k + len(marker)
 	if e < n && !unicode.IsSpace(r[e]) {
-		return 0, false
+		return 0, false, false
 	}
 	// padding = text between the last newline before k and k
 	p := k
@@ -293,7 +349,7 @@ func wellFormedHeredoc(r []rune, i int) (int, bool) {
 	padding := r[p:k]
 	for _, c := range padding {
 		if c != ' ' && c != '\t' {
-			return 0, false
+			return 0, false, false
 		}
 	}
 	// every body line is empty or starts with the padding
@@ -305,16 +361,16 @@ func wellFormedHeredoc(r []rune, i int) (int, bool) {
 		}
 		line := r[ls:le]
 		if len(line) > 0 && !(len(line) >= len(padding) && equalRunes(line[:len(padding)], padding)) {
-			return 0, false
+			return 0, false, false
 		}
 		for _, c := range line {
 			if c == '\r' {
-				return 0, false
+				return 0, false, false
 			}
 		}
 		ls = le + 1
 	}
-	return e, true
+	return e, p == body0, true
 }
 
 func equalRunes(a, b []rune) bool {
